@@ -62,7 +62,8 @@ type twin struct {
 	lastDel map[string]int // account -> validator index of its most recent MsgDelegate
 	// infractions: absent votes are reported, double-sign evidence arrives, and the downtime window is short
 	infractions bool
-	r0      int // fee payer funding of the pre-created tunnel
+	r0          int  // fee payer funding of the pre-created tunnel
+	exactSeq    bool // directed scenarios: never sign with a wrong account sequence
 }
 
 func (t *twin) accNum(app *fx.App, addr sdk.AccAddress) (uint64, bool) {
@@ -81,7 +82,7 @@ func (t *twin) sign(acct bandtesting.Account, gas uint64, msgs ...sdk.Msg) []byt
 	}
 	ctx := t.a.BaseApp.NewUncachedContext(false, cmtproto.Header{})
 	seq := t.a.AccountKeeper.GetAccount(ctx, acct.Address).GetSequence()
-	if t.r.Chance(1, 40) {
+	if !t.exactSeq && t.r.Chance(1, 40) {
 		seq += uint64(t.r.Range(1, 3))
 	}
 	tx, err := bandtesting.GenSignedMockTx(rand.New(rand.NewSource(int64(t.r.U64()>>1))), t.a.GetTxConfig(), msgs,
@@ -137,7 +138,7 @@ func (t *twin) randMsg() (sdk.Msg, bandtesting.Account) {
 				uint64(r.PickInt(0, 1, 40000, 100000)), uint64(r.PickInt(0, 1, 300000)), acct.Address, oracletypes.Encoder(r.Range(0, 3))), acct
 		}
 		ask := r.Range(1, 3)
-		return oracletypes.NewMsgRequestData(oracletypes.OracleScriptID(r.Range(1, 3)), []byte("beeb"), uint64(ask), uint64(r.Range(1, ask)), "cid", big,
+		return oracletypes.NewMsgRequestData(oracletypes.OracleScriptID(r.PickInt(1, 1, 1, 1, 2, 3)), []byte("beeb"), uint64(ask), uint64(r.Range(1, ask)), "cid", big,
 			40000, 300000, acct.Address, oracletypes.Encoder(r.Range(0, 2))), acct
 	case 2, 3:
 		var rr []oracletypes.RawReport
@@ -150,7 +151,15 @@ func (t *twin) randMsg() (sdk.Msg, bandtesting.Account) {
 				rr = append(rr, oracletypes.NewRawReport(oracletypes.ExternalID(i), uint32(r.PickInt(0, 0, 0, 1)), []byte("answer"+fmt.Sprint(i))))
 			}
 		}
-		return oracletypes.NewMsgReportData(oracletypes.RequestID(r.Range(0, 8)), rr, val.ValAddress), val
+		rid := uint64(r.Range(0, 8))
+		qctx := t.a.BaseApp.NewUncachedContext(false, cmtproto.Header{})
+		if cnt := t.a.OracleKeeper.GetRequestCount(qctx); cnt > 0 && r.Chance(3, 4) {
+			rid = cnt - uint64(r.Intn(3)) // mostly one of the latest requests, so that requests do get resolved
+			if rid < 1 || rid > cnt {
+				rid = cnt
+			}
+		}
+		return oracletypes.NewMsgReportData(oracletypes.RequestID(rid), rr, val.ValAddress), val
 	case 4:
 		return oracletypes.NewMsgActivate(val.ValAddress), val
 	case 5:
@@ -250,6 +259,16 @@ func (t *twin) randMsg() (sdk.Msg, bandtesting.Account) {
 		sd := []tunneltypes.SignalDeviation{tunneltypes.NewSignalDeviation(sid(), uint64(r.Range(0, 500)), uint64(r.Range(0, 1000))), tunneltypes.NewSignalDeviation(sid(), 100, 300)}[:r.Range(1, 2)]
 		return tunneltypes.NewMsgUpdateSignalsAndInterval(uint64(r.Range(0, 4)), sd, uint64(r.PickInt(1, 60, 120, 100000)), acct.Address.String()), acct
 	case 26:
+		if r.Bool() {
+			// the owner renames an oracle script (or a data source) and keeps its code: "[do-not-modify]" must leave the stored file alone
+			own := bandtesting.Owner
+			if r.Bool() {
+				return oracletypes.NewMsgEditOracleScript(oracletypes.OracleScriptID(r.PickInt(1, 1, 1, 2, 3, 4)), r.PickStr("renamed", oracletypes.DoNotModify), oracletypes.DoNotModify,
+					oracletypes.DoNotModify, oracletypes.DoNotModify, oracletypes.DoNotModifyBytes, own.Address, own.Address), own
+			}
+			return oracletypes.NewMsgEditDataSource(oracletypes.DataSourceID(r.Range(1, 3)), r.PickStr("renamed", oracletypes.DoNotModify), oracletypes.DoNotModify,
+				oracletypes.DoNotModifyBytes, coins(r), own.Address, own.Address, own.Address), own
+		}
 		return oracletypes.NewMsgEditDataSource(oracletypes.DataSourceID(r.Range(0, 5)), rstr(r), rstr(r), r.Bytes(r.Range(0, 40)), coins(r), acct.Address, acct.Address, acct.Address), acct
 	case 27:
 		// authority-only messages sent by an ordinary account
@@ -575,6 +594,10 @@ func main() {
 		probeSampling(a.Seed, a.Mode == "probe-sampling-control")
 		return
 	}
+	if a.Mode == "probe-edit" || a.Mode == "probe-edit-control" {
+		probeEdit(a.Seed, a.Mode == "probe-edit-control")
+		return
+	}
 	if a.Mode == "probe-slash" || a.Mode == "probe-slash-control" {
 		probeSlash(a.Seed, a.Mode == "probe-slash-control")
 		return
@@ -647,6 +670,15 @@ func main() {
 				x.app.Fund(x.ctx, sdk.MustAccAddressFromBech32(tn.FeePayer), "uband", sdkmath.NewInt(int64(t.r0)))
 			}
 		}
+		if t.r.Chance(3, 4) {
+			// the validators are oracle-active from the start (same on both replicas): data requests find validators to ask
+			for _, app := range []*fx.App{A, B} {
+				actx := app.BaseApp.NewUncachedContext(false, cmtproto.Header{Height: t.height, Time: t.now, ChainID: bandtesting.ChainID})
+				for _, v := range bandtesting.Validators {
+					_ = app.OracleKeeper.Activate(actx, v.ValAddress)
+				}
+			}
+		}
 		tr.Op(fx.M{"op": "genesis", "out": fx.M{"hashA": hx(A.LastCommitID().Hash), "hashB": hx(B.LastCommitID().Hash)}})
 		// sequences as the chain has them
 		ctx := A.BaseApp.NewUncachedContext(false, cmtproto.Header{})
@@ -684,6 +716,17 @@ func main() {
 				break
 			}
 		}
+		if debugLogs {
+			dctx := A.BaseApp.NewUncachedContext(false, cmtproto.Header{})
+			n, res := A.OracleKeeper.GetRequestCount(dctx), 0
+			for id := uint64(1); id <= n; id++ {
+				if A.OracleKeeper.HasResult(dctx, oracletypes.RequestID(id)) {
+					res++
+				}
+			}
+			os1, _ := A.OracleKeeper.GetOracleScript(dctx, 1)
+			fmt.Fprintf(os.Stderr, "CASE requests=%d results=%d script1=%q/%q\n", n, res, os1.Name, os1.Filename)
+		}
 		A.Close()
 		B.Close()
 	}
@@ -697,7 +740,7 @@ func main() {
 func probeSampling(seed uint64, control bool) {
 	A := fx.NewApp()
 	defer A.Close()
-	t := &twin{a: A, b: A, r: fx.NewRng(seed), height: A.LastBlockHeight(), now: time.Unix(1_700_000_000, 0).UTC(), seqs: map[string]uint64{},
+	t := &twin{a: A, b: A, exactSeq: true, r: fx.NewRng(seed), height: A.LastBlockHeight(), now: time.Unix(1_700_000_000, 0).UTC(), seqs: map[string]uint64{},
 		accs: []bandtesting.Account{bandtesting.Alice}, powers: []int64{100, 1, 99}}
 	blockOf := func(txs ...[]byte) string {
 		t.height++
@@ -760,7 +803,7 @@ func probeSampling(seed uint64, control bool) {
 func probeSlash(seed uint64, control bool) {
 	A := fx.NewApp()
 	defer A.Close()
-	t := &twin{a: A, b: A, r: fx.NewRng(seed), height: A.LastBlockHeight(), now: time.Unix(1_700_000_000, 0).UTC(), seqs: map[string]uint64{},
+	t := &twin{a: A, b: A, exactSeq: true, r: fx.NewRng(seed), height: A.LastBlockHeight(), now: time.Unix(1_700_000_000, 0).UTC(), seqs: map[string]uint64{},
 		accs: []bandtesting.Account{bandtesting.Alice}, powers: []int64{100, 1, 99}}
 	blockOf := func(ev []abci.Misbehavior, txs ...[]byte) string {
 		t.height++
@@ -813,9 +856,74 @@ func probeSlash(seed uint64, control bool) {
 	fmt.Println("PROBE done")
 }
 
+// probeEdit (child process): an ordinary data request on oracle script 1 is accepted; while it waits for its reports the owner
+// renames the script and data source 1 keeping their code ("[do-not-modify]"); then every asked validator reports and the
+// end-blocker resolves the request.
+// The control run is the same history without the edits.  Prints PROBE lines.
+func probeEdit(seed uint64, control bool) {
+	A := fx.NewApp()
+	defer A.Close()
+	t := &twin{a: A, b: A, exactSeq: true, r: fx.NewRng(seed), height: A.LastBlockHeight(), now: time.Unix(1_700_000_000, 0).UTC(), seqs: map[string]uint64{}, lastDel: map[string]int{},
+		accs: []bandtesting.Account{bandtesting.Alice}, powers: []int64{100, 1, 99}}
+	blockOf := func(txs ...[]byte) string {
+		t.height++
+		t.now = t.now.Add(3 * time.Second)
+		var votes []abci.VoteInfo
+		for i, v := range bandtesting.Validators {
+			votes = append(votes, abci.VoteInfo{Validator: abci.Validator{Address: v.PubKey.Address(), Power: t.powers[i%3]}, BlockIdFlag: cmtproto.BlockIDFlagCommit})
+		}
+		req := &abci.RequestFinalizeBlock{Height: t.height, Time: t.now, Txs: txs, Hash: make([]byte, 32),
+			ProposerAddress: bandtesting.Validators[0].PubKey.Address(), DecidedLastCommit: abci.CommitInfo{Votes: votes}}
+		return fx.Try(func() error {
+			res, err := A.FinalizeBlock(req)
+			if err == nil {
+				for _, x := range res.TxResults {
+					fmt.Printf("PROBE tx code=%d codespace=%s log=%q\n", x.Code, x.Codespace, x.Log)
+				}
+				_, err = A.Commit()
+			}
+			return err
+		})
+	}
+	var acts [][]byte
+	for _, v := range bandtesting.Validators {
+		acts = append(acts, t.sign(v, 1_000_000, oracletypes.NewMsgActivate(v.ValAddress)))
+	}
+	fmt.Println("PROBE activate err=" + blockOf(acts...))
+	rq := oracletypes.NewMsgRequestData(1, []byte("beeb"), 2, 2, "cid", sdk.NewCoins(sdk.NewInt64Coin("uband", 100_000_000)), 40000, 300000, bandtesting.Validators[0].Address, oracletypes.ENCODER_UNSPECIFIED)
+	fmt.Println("PROBE request err=" + blockOf(t.sign(bandtesting.Validators[0], 2_000_000, rq)))
+	if !control {
+		own := bandtesting.Owner
+		fmt.Println("PROBE edit-script err=" + blockOf(t.sign(own, 1_000_000, oracletypes.NewMsgEditOracleScript(1, "renamed", oracletypes.DoNotModify, oracletypes.DoNotModify,
+			oracletypes.DoNotModify, oracletypes.DoNotModifyBytes, own.Address, own.Address))))
+		fmt.Println("PROBE edit-source err=" + blockOf(t.sign(own, 1_000_000, oracletypes.NewMsgEditDataSource(1, "renamed", oracletypes.DoNotModify, oracletypes.DoNotModifyBytes,
+			sdk.NewCoins(sdk.NewInt64Coin("uband", 1_000_000)), bandtesting.Treasury.Address, own.Address, own.Address))))
+	}
+	ctx := A.BaseApp.NewUncachedContext(false, cmtproto.Header{Height: t.height, Time: t.now, ChainID: bandtesting.ChainID})
+	var reps [][]byte
+	if r0, err := A.OracleKeeper.GetRequest(ctx, 1); err == nil {
+		for _, vs := range r0.RequestedValidators {
+			for _, v := range bandtesting.Validators {
+				if v.ValAddress.String() == vs {
+					var rr []oracletypes.RawReport
+					for _, raw := range r0.RawRequests {
+						rr = append(rr, oracletypes.NewRawReport(raw.ExternalID, 0, []byte("answer")))
+					}
+					reps = append(reps, t.sign(v, 1_000_000, oracletypes.NewMsgReportData(1, rr, v.ValAddress)))
+				}
+			}
+		}
+	}
+	os.Stdout.Sync()
+	fmt.Println("PROBE evidence err=" + blockOf(reps...)) // (the block whose end-blocker resolves the request)
+	ctx = A.BaseApp.NewUncachedContext(false, cmtproto.Header{Height: t.height, Time: t.now, ChainID: bandtesting.ChainID})
+	fmt.Printf("PROBE after jailedA=%v resolved\n", A.OracleKeeper.HasResult(ctx, 1))
+	fmt.Println("PROBE done")
+}
+
 // runProbes runs directed scenarios that cannot share a process with the random cases.
 func runProbes(tr *fx.Trace, seed uint64) {
-	one := func(mode string) (accepted string, finished bool, log []string) {
+	one := func(mode string, limit time.Duration) (accepted string, finished bool, log []string) {
 		cmd := exec.Command(os.Args[0], "--mode", mode, "--seed", fmt.Sprint(seed), "--out", os.DevNull, "--stats", os.DevNull)
 		var buf bytes.Buffer
 		cmd.Stdout = &buf
@@ -826,7 +934,7 @@ func runProbes(tr *fx.Trace, seed uint64) {
 		finished = true
 		select {
 		case <-done:
-		case <-time.After(25 * time.Second):
+		case <-time.After(limit):
 			finished = false
 			cmd.Process.Kill()
 			<-done
@@ -840,29 +948,33 @@ func runProbes(tr *fx.Trace, seed uint64) {
 		return accepted, finished && strings.Contains(out, "PROBE done"), strings.Split(strings.TrimSpace(out), "\n")
 	}
 	tr.Reset(fx.M{"probe": true})
-	cv, cf, cl := one("probe-sampling-control")
+	// only the run that is expected to hang gets the short limit; everything else may be slow on a loaded machine
+	cv, cf, cl := one("probe-sampling-control", 5*time.Minute)
 	tr.Op(fx.M{"op": "probe", "name": "oracle.SamplingTryCount", "control": true, "value": cv,
 		"out": fx.M{"acceptedByValidate": true, "finished": cf, "log": cl}})
-	v, f, l := one("probe-sampling")
+	v, f, l := one("probe-sampling", 25*time.Second)
 	tr.Op(fx.M{"op": "probe", "name": "oracle.SamplingTryCount", "control": false, "value": v,
 		"out": fx.M{"acceptedByValidate": v != "" && v != "0", "finished": f, "log": l}})
-	// directed history: slash of a redelegation whose delegator has locked its whole power
-	for _, control := range []bool{true, false} {
-		mode := "probe-slash"
-		if control {
-			mode += "-control"
-		}
-		_, fin, lg := one(mode)
-		errs, slashed := "", false
-		for _, ln := range lg {
-			if strings.HasPrefix(ln, "PROBE evidence err=") {
-				errs = strings.TrimPrefix(ln, "PROBE evidence err=")
+	// directed histories: (1) slash of a redelegation whose delegator has locked its whole power, (2) a data request on an
+	// oracle script and a data source their owner has renamed with "[do-not-modify]" code
+	for _, sc := range [][2]string{{"probe-slash", "slash-of-locked-redelegation"}, {"probe-edit", "request-after-owner-renames-script"}} {
+		for _, control := range []bool{true, false} {
+			mode := sc[0]
+			if control {
+				mode += "-control"
 			}
-			if strings.HasPrefix(ln, "PROBE after jailedA=true") {
-				slashed = true
+			_, fin, lg := one(mode, 5*time.Minute)
+			errs, slashed := "", false
+			for _, ln := range lg {
+				if strings.HasPrefix(ln, "PROBE evidence err=") {
+					errs = strings.TrimPrefix(ln, "PROBE evidence err=")
+				}
+				if strings.HasPrefix(ln, "PROBE after jailedA=true") {
+					slashed = true
+				}
 			}
+			tr.Op(fx.M{"op": "scenario", "name": sc[1], "control": control,
+				"out": fx.M{"finished": fin, "err": errs, "slashed": slashed, "log": lg}})
 		}
-		tr.Op(fx.M{"op": "scenario", "name": "slash-of-locked-redelegation", "control": control,
-			"out": fx.M{"finished": fin, "err": errs, "slashed": slashed, "log": lg}})
 	}
 }
